@@ -140,6 +140,10 @@ def r2_keywords(ctx):
             if tt["k"] == "call" and tt["callee"].get("key") == TX:
                 lits.append(first_literal(ctx, f, ex, ex.operand(tt["args"][1]), tt["line"]))
         ok = len(lits) == 1 and lits[0] is not None and lits[0] == w
+        if not lits or any(x is None for x in lits):
+            # the line is assembled some other way (a helper builds it, parts are joined): its first literal is not read here
+            ctx.lost(rid, "the literal UciTx::%s starts its line with" % m)
+            continue
         ctx.ob(rid, "message|%s" % m, ok, "" if ok else "UciTx::%s writes %r, expected a line starting exactly with %r" % (m, lits, w), ctx.where(f))
     # info keys
     f = prog.fns.get(TXIMPL + "info")
